@@ -238,7 +238,7 @@ fn run_shard(ctx: &ShardCtx) {
         max_ops: ctx.tier.pick(50, 120),
         quotes: true,
     };
-    run_lockstep_shard(ctx, "editor-session", "C05", ctx.tier.pick(200_000, 2_000_000), opts, &["raw", "raw", "enum", "group"], FLAGS);
+    run_lockstep_shard(ctx, "editor-session", "C05", ctx.tier.pick(1_500_000, 15_000_000), opts, &["raw", "raw", "enum", "group"], FLAGS);
 }
 
 fn replay(sub: &str, case: &Value) -> Verdict {
